@@ -209,6 +209,9 @@ func concatIdiom(s *Summary) {
 }
 
 func canonicaliseSequences(s *Summary) {
+	reduceSeqLen(s)
+	reduceSeqLen(s)
+	reduceSeqLen(s)
 	concatIdiom(s)
 	// ---- copies: make(len(src)) + copy(dst, src)  ==  append(empty, src...)
 	for changed := true; changed; {
@@ -364,9 +367,16 @@ func canonicaliseSequences(s *Summary) {
 				// the slice must be sized by the trip count of the loop
 				cond := &Term{Op: "cmp", Val: "<", Bool: true, Args: []*Term{
 					{Op: "sym", Val: fmt.Sprintf("L%d.I", l.ID), Num: true, Int: true}, withInt(init.Args[0])}}
+				what := init.Val[strings.Index(init.Val, ":")+1:]
 				if ok, _, _ := equivTerms(l.Cond, cond, maxAtoms); !ok {
+					if n := tripCount(l); n != nil {
+						ls, _ := canonStr(withInt(init.Args[0]))
+						ts, _ := canonStr(withInt(n))
+						recordLen(s, LenCheck{what, false, fmt.Sprintf("allocated with length %s but filled by index over a loop with trip count %s", ls, ts)})
+					}
 					continue
 				}
+				recordLen(s, LenCheck{what, true, "sized by the trip count of the loop that fills it"})
 				mk = init.Val
 			} else {
 				if !isEmptySlice(init) {
@@ -408,6 +418,15 @@ func canonicaliseSequences(s *Summary) {
 		}
 	}
 	reduceSeqLen(s)
+}
+
+func recordLen(s *Summary, lc LenCheck) {
+	for _, e := range s.LenChecks {
+		if e.What == lc.What && e.OK == lc.OK {
+			return
+		}
+	}
+	s.LenChecks = append(s.LenChecks, lc)
 }
 
 func withInt(t *Term) *Term {
